@@ -38,10 +38,10 @@ func (p IP4) String() string {
 }
 
 func (p IP4) IsValid() error {
-	if n := len(p); n >= 20 && n >= p.IHL() && n >= p.TotalLen() {
+	if n := len(p); n >= 20 && p.IHL() >= 20 && n >= p.IHL() && n >= p.TotalLen() && p.TotalLen() >= p.IHL() {
 		return nil
 	}
-	if n := len(p); n < 20 || n < p.IHL() {
+	if n := len(p); n < 20 || n < p.IHL() || p.IHL() < 20 {
 		return fmt.Errorf("ipv4 header too short len=%d: %w", n, ErrFrameLen)
 	}
 	return fmt.Errorf("ipv4 len=%d not equal header totallen=%d: %w", len(p), p.TotalLen(), ErrFrameLen)
